@@ -298,6 +298,16 @@ func RunWorker(cfg WorkerConfig) int {
 	exit := 0
 	tainted := false
 
+	var runLog *os.File
+
+	if name := os.Getenv("VERIF_RUNLOG"); name != "" {
+		if f, err := os.OpenFile(fmt.Sprintf("%s.w%d", name, cfg.Worker), os.O_CREATE|os.O_WRONLY|os.O_TRUNC, 0o644); err == nil {
+			runLog = f
+
+			defer f.Close()
+		}
+	}
+
 	for i := int64(0); ; i++ {
 		if cfg.MaxRuns > 0 && i >= cfg.MaxRuns {
 			break
@@ -312,6 +322,17 @@ func RunWorker(cfg WorkerConfig) int {
 		ctx.Shrink = false
 		res := cfg.Prop.Run(ctx, tape)
 		part.Runs++
+
+		if runLog != nil {
+			// determinism self-test: everything a run decided and observed, one line per run.
+			sig := "-"
+			if res.Violation != nil {
+				sig = res.Violation.Sig
+			}
+
+			fmt.Fprintf(runLog, "%d %d tape=%x trace=%x steps=%d cases=%d nontrivial=%v ordersens=%v sig=%s\n", i, runSeed,
+				HashString(fmt.Sprint(tape.Used())), res.TraceHash, res.Steps, res.Cases, res.Nontrivial, res.OrderSensitive, sig)
+		}
 
 		if res.Cases > 1 {
 			part.Runs += int64(res.Cases - 1)
